@@ -4,6 +4,7 @@
 #include <cstdint>
 #include <cstddef>
 #include <cstring>
+#include <cstdio>
 #include "../../sim/sched.h"
 #include "cache_iface.h"
 
@@ -13,44 +14,145 @@ static __thread long t_cas=0;
 long cachesim_cas_count(){ return t_cas; }
 void cachesim_cas_reset(){ t_cas=0; }
 
-namespace verif{
-enum { SITE_LOAD_PRE=10, SITE_LOAD_POST=11, SITE_STORE_PRE=12, SITE_STORE_POST=13, SITE_CAS_PRE=14, SITE_CAS_OK=15, SITE_CAS_FAIL=16, SITE_CAS_SPUR=17 };
-template<class T> struct sim_atomic{
-  T v;
-  sim_atomic(){ std::memset(&v,0,sizeof v); }
-  T load(){ sched_yield(SITE_LOAD_PRE); T r=v; if(!cachesim_coarse) sched_yield(SITE_LOAD_POST); return r; }
-  void store(T x){ sched_yield(SITE_STORE_PRE); v=x; if(!cachesim_coarse) sched_yield(SITE_STORE_POST); }
+// ---- happens-before model (vector clocks) --------------------------------------------------------------------------------------------
+// The simulated atomics carry the memory orders the code gives them; the payload type records who wrote and read it. A payload access that the
+// orders do not order after the conflicting access is reported: with those orders a fetch may observe a payload other than the one inserted.
+namespace hb{
+enum { NT=5 };       // up to four simulated threads + the harness thread (last slot)
+struct VC{ uint32_t c[NT]; };
+static VC clk[NT],relfence[NT],acqpend[NT];
+static int race=0; static char race_msg[256];
+inline int me(){ int t=verif::sched_self(); return (t<0||t>=NT-1)?NT-1:t; }
+inline void join(VC& a,const VC& b){ for(int i=0;i<NT;i++) if(b.c[i]>a.c[i]) a.c[i]=b.c[i]; }
+inline bool acq(std::memory_order mo){ return mo==std::memory_order_acquire||mo==std::memory_order_consume||mo==std::memory_order_acq_rel||mo==std::memory_order_seq_cst; }
+inline bool rel(std::memory_order mo){ return mo==std::memory_order_release||mo==std::memory_order_acq_rel||mo==std::memory_order_seq_cst; }
+inline void reset(){ std::memset(clk,0,sizeof clk); std::memset(relfence,0,sizeof relfence); std::memset(acqpend,0,sizeof acqpend); for(int t=0;t<NT;t++) clk[t].c[t]=1; race=0; race_msg[0]=0; }
+inline void on_load(const VC& L,std::memory_order mo){ int t=me(); if(acq(mo)) join(clk[t],L); else join(acqpend[t],L); }
+inline void on_store(VC& L,std::memory_order mo){ int t=me(); if(rel(mo)){ L=clk[t]; clk[t].c[t]++; } else L=relfence[t]; }
+inline void on_rmw(VC& L,std::memory_order mo){ int t=me(); if(acq(mo)) join(clk[t],L); else join(acqpend[t],L); if(rel(mo)){ join(L,clk[t]); clk[t].c[t]++; } else join(L,relfence[t]); }
+inline void fence(std::memory_order mo){ int t=me(); if(acq(mo)) join(clk[t],acqpend[t]); if(rel(mo)){ relfence[t]=clk[t]; clk[t].c[t]++; } }
+inline std::memory_order fail_order(std::memory_order mo){ return mo==std::memory_order_acq_rel?std::memory_order_acquire:(mo==std::memory_order_release?std::memory_order_relaxed:mo); }
+struct Shadow{
+  int wt; uint32_t wc; uint32_t r[NT];
+  void init(){ int t=me(); wt=t; wc=clk[t].c[t]; std::memset(r,0,sizeof r); }
+  void report(const char* what,int other){ if(!race){ race=1; std::snprintf(race_msg,sizeof race_msg,"%s (thread %d against thread %d): the memory orders of the atomic operations in between do not order the two accesses",what,me(),other); } }
+  void on_read(){ int t=me(); if(wt!=t && wc>clk[t].c[wt]) report("a payload is read while its write by another thread is not ordered before the read",wt); r[t]=clk[t].c[t]; }
+  void on_write(){ int t=me(); if(wt!=t && wc>clk[t].c[wt]) report("a payload is overwritten while an earlier write by another thread is not ordered before it",wt);
+    for(int u=0;u<NT;u++) if(u!=t && r[u]>clk[t].c[u]){ report("a payload is overwritten while a read by another thread is not ordered before the write",u); break; }
+    wt=t; wc=clk[t].c[t]; std::memset(r,0,sizeof r); }
 };
-template<class T> bool atomic_compare_exchange_weak(sim_atomic<T>* a,T* expected,T desired){
-  sched_yield(SITE_CAS_PRE);
-  t_cas++;
-  bool ok;
-  if(std::memcmp(&a->v,expected,sizeof(T))==0){
-    if(cachesim_spurious_pct>0 && sched_coin(cachesim_spurious_pct)){ ok=false; if(!cachesim_coarse) sched_yield(SITE_CAS_SPUR); return ok; } // spurious failure: *expected already equals the value
-    a->v=desired; ok=true;
-    if(!cachesim_coarse) sched_yield(SITE_CAS_OK);
-  }else{
-    *expected=a->v; ok=false;
-    if(!cachesim_coarse) sched_yield(SITE_CAS_FAIL);
-  }
-  return ok;
 }
+void cachesim_hb_reset(){ hb::reset(); }
+void cachesim_hb_thread_start(){ int t=hb::me(); hb::join(hb::clk[t],hb::clk[hb::NT-1]); }
+void cachesim_hb_join_all(){ for(int t=0;t<hb::NT-1;t++) hb::join(hb::clk[hb::NT-1],hb::clk[t]); }
+const char* cachesim_hb_race(){ return hb::race?hb::race_msg:0; }
+
+namespace verif{
+enum { SITE_LOAD_PRE=10, SITE_LOAD_POST=11, SITE_STORE_PRE=12, SITE_STORE_POST=13, SITE_CAS_PRE=14, SITE_CAS_OK=15, SITE_CAS_FAIL=16, SITE_CAS_SPUR=17, SITE_RMW_PRE=18, SITE_RMW_POST=19, SITE_FLAG_WAIT=20 };
+// every spelling of std::atomic<T> the header might use is served: members and free functions, with and without explicit orders
+template<class T> struct sim_atomic{
+  T v; hb::VC L;
+  sim_atomic(){ std::memset(&v,0,sizeof v); std::memset(&L,0,sizeof L); }
+  sim_atomic(T x):v(x){ std::memset(&L,0,sizeof L); }
+  sim_atomic(const sim_atomic&)=delete;
+  sim_atomic& operator=(const sim_atomic&)=delete;
+  T load(std::memory_order mo=std::memory_order_seq_cst) const{ sched_yield(SITE_LOAD_PRE); T r=v; hb::on_load(L,mo); if(!cachesim_coarse) sched_yield(SITE_LOAD_POST); return r; }
+  void store(T x,std::memory_order mo=std::memory_order_seq_cst){ sched_yield(SITE_STORE_PRE); v=x; hb::on_store(L,mo); if(!cachesim_coarse) sched_yield(SITE_STORE_POST); }
+  operator T() const{ return load(); }
+  T operator=(T x){ store(x); return x; }
+  T exchange(T x,std::memory_order mo=std::memory_order_seq_cst){ sched_yield(SITE_RMW_PRE); T r=v; v=x; hb::on_rmw(L,mo); if(!cachesim_coarse) sched_yield(SITE_RMW_POST); return r; }
+  bool cas(T& expected,T desired,std::memory_order ok_mo,std::memory_order fail_mo,bool weak){
+    sched_yield(SITE_CAS_PRE);
+    t_cas++;
+    if(std::memcmp(&v,&expected,sizeof(T))==0){
+      if(weak && cachesim_spurious_pct>0 && sched_coin(cachesim_spurious_pct)){ if(!cachesim_coarse) sched_yield(SITE_CAS_SPUR); return false; } // spurious failure: expected already equals the value
+      v=desired; hb::on_rmw(L,ok_mo);
+      if(!cachesim_coarse) sched_yield(SITE_CAS_OK);
+      return true;
+    }
+    expected=v; hb::on_load(L,fail_mo);
+    if(!cachesim_coarse) sched_yield(SITE_CAS_FAIL);
+    return false;
+  }
+  bool compare_exchange_weak(T& e,T d,std::memory_order s,std::memory_order f){ return cas(e,d,s,f,true); }
+  bool compare_exchange_weak(T& e,T d,std::memory_order m=std::memory_order_seq_cst){ return cas(e,d,m,hb::fail_order(m),true); }
+  bool compare_exchange_strong(T& e,T d,std::memory_order s,std::memory_order f){ return cas(e,d,s,f,false); }
+  bool compare_exchange_strong(T& e,T d,std::memory_order m=std::memory_order_seq_cst){ return cas(e,d,m,hb::fail_order(m),false); }
+  template<class F> T rmw(F f,std::memory_order mo){ sched_yield(SITE_RMW_PRE); T r=v; v=f(r); hb::on_rmw(L,mo); if(!cachesim_coarse) sched_yield(SITE_RMW_POST); return r; }
+  template<class U> T fetch_add(U x,std::memory_order mo=std::memory_order_seq_cst){ return rmw([x](T a){ return (T)(a+x); },mo); }
+  template<class U> T fetch_sub(U x,std::memory_order mo=std::memory_order_seq_cst){ return rmw([x](T a){ return (T)(a-x); },mo); }
+  template<class U> T fetch_and(U x,std::memory_order mo=std::memory_order_seq_cst){ return rmw([x](T a){ return (T)(a&x); },mo); }
+  template<class U> T fetch_or(U x,std::memory_order mo=std::memory_order_seq_cst){ return rmw([x](T a){ return (T)(a|x); },mo); }
+  template<class U> T fetch_xor(U x,std::memory_order mo=std::memory_order_seq_cst){ return rmw([x](T a){ return (T)(a^x); },mo); }
+  T operator++(){ return (T)(fetch_add(1)+1); } T operator++(int){ return fetch_add(1); }
+  T operator--(){ return (T)(fetch_sub(1)-1); } T operator--(int){ return fetch_sub(1); }
+  template<class U> T operator+=(U x){ return (T)(fetch_add(x)+x); }
+  template<class U> T operator-=(U x){ return (T)(fetch_sub(x)-x); }
+  bool is_lock_free() const{ return true; }
+};
+template<class T> bool atomic_compare_exchange_weak(sim_atomic<T>* a,T* e,T d){ return a->compare_exchange_weak(*e,d); }
+template<class T> bool atomic_compare_exchange_strong(sim_atomic<T>* a,T* e,T d){ return a->compare_exchange_strong(*e,d); }
+template<class T> bool atomic_compare_exchange_weak_explicit(sim_atomic<T>* a,T* e,T d,std::memory_order s,std::memory_order f){ return a->compare_exchange_weak(*e,d,s,f); }
+template<class T> bool atomic_compare_exchange_strong_explicit(sim_atomic<T>* a,T* e,T d,std::memory_order s,std::memory_order f){ return a->compare_exchange_strong(*e,d,s,f); }
+template<class T> T atomic_load(const sim_atomic<T>* a){ return a->load(); }
+template<class T> T atomic_load_explicit(const sim_atomic<T>* a,std::memory_order m){ return a->load(m); }
+template<class T> void atomic_store(sim_atomic<T>* a,T x){ a->store(x); }
+template<class T> void atomic_store_explicit(sim_atomic<T>* a,T x,std::memory_order m){ a->store(x,m); }
+template<class T> T atomic_exchange(sim_atomic<T>* a,T x){ return a->exchange(x); }
+template<class T> T atomic_exchange_explicit(sim_atomic<T>* a,T x,std::memory_order m){ return a->exchange(x,m); }
+template<class T> void atomic_init(sim_atomic<T>* a,T x){ a->v=x; }
+template<class T,class U> T atomic_fetch_add(sim_atomic<T>* a,U x){ return a->fetch_add(x); }
+template<class T,class U> T atomic_fetch_add_explicit(sim_atomic<T>* a,U x,std::memory_order m){ return a->fetch_add(x,m); }
+template<class T,class U> T atomic_fetch_sub(sim_atomic<T>* a,U x){ return a->fetch_sub(x); }
+template<class T,class U> T atomic_fetch_sub_explicit(sim_atomic<T>* a,U x,std::memory_order m){ return a->fetch_sub(x,m); }
+inline void sim_atomic_thread_fence(std::memory_order m){ hb::fence(m); }
+// a test-and-set flag: waiting for it is blocking as far as the scheduler is concerned (a spinning thread must not starve the holder)
+struct sim_atomic_flag{
+  bool f; hb::VC L;
+  sim_atomic_flag():f(false){ std::memset(&L,0,sizeof L); }
+  sim_atomic_flag(bool x):f(x){ std::memset(&L,0,sizeof L); }
+  int key() const{ return (int)(((uintptr_t)this>>3)&0x3fffff)|0x400000; }
+  bool test_and_set(std::memory_order mo=std::memory_order_seq_cst){ sched_yield(SITE_RMW_PRE); bool r=f; f=true; hb::on_rmw(L,mo); if(r && !sched_aborted()) sched_block(key(),SITE_FLAG_WAIT); return r; }
+  void clear(std::memory_order mo=std::memory_order_seq_cst){ sched_yield(SITE_STORE_PRE); f=false; hb::on_store(L,mo); sched_wake(key()); }
+};
+inline bool atomic_flag_test_and_set(sim_atomic_flag* a){ return a->test_and_set(); }
+inline bool atomic_flag_test_and_set_explicit(sim_atomic_flag* a,std::memory_order m){ return a->test_and_set(m); }
+inline void atomic_flag_clear(sim_atomic_flag* a){ a->clear(); }
+inline void atomic_flag_clear_explicit(sim_atomic_flag* a,std::memory_order m){ a->clear(m); }
 }
 namespace std{
   template<class T> using sim_atomic=verif::sim_atomic<T>;
-  using verif::atomic_compare_exchange_weak;
+  using verif::sim_atomic_flag; using verif::sim_atomic_thread_fence;
+  using verif::atomic_compare_exchange_weak; using verif::atomic_compare_exchange_strong;
+  using verif::atomic_compare_exchange_weak_explicit; using verif::atomic_compare_exchange_strong_explicit;
+  using verif::atomic_load; using verif::atomic_load_explicit; using verif::atomic_store; using verif::atomic_store_explicit;
+  using verif::atomic_exchange; using verif::atomic_exchange_explicit; using verif::atomic_init;
+  using verif::atomic_fetch_add; using verif::atomic_fetch_add_explicit; using verif::atomic_fetch_sub; using verif::atomic_fetch_sub_explicit;
+  using verif::atomic_flag_test_and_set; using verif::atomic_flag_test_and_set_explicit; using verif::atomic_flag_clear; using verif::atomic_flag_clear_explicit;
 }
 #ifdef SQUIDS_THREAD_LOCAL
 #error "shared variant must be compiled without SQUIDS_THREAD_LOCAL"
 #endif
+#undef ATOMIC_FLAG_INIT
+#define ATOMIC_FLAG_INIT false
 #define atomic sim_atomic
+#define atomic_flag sim_atomic_flag
+#define atomic_thread_fence sim_atomic_thread_fence
 #define squids squids_shared
 #include <SQuIDS/detail/Cache.h>
 #undef atomic
+#undef atomic_flag
+#undef atomic_thread_fence
 #undef squids
 
 namespace{
-struct Val{ int v; Val():v(0){} Val(int x):v(x){} };
+// the payload: every copy out of and assignment into a record is an access the happens-before model sees
+struct Val{
+  int v; mutable hb::Shadow sh;
+  Val():v(0){ sh.init(); } Val(int x):v(x){ sh.init(); }
+  Val(const Val& o):v(o.v){ o.sh.on_read(); sh.init(); }
+  Val& operator=(const Val& o){ o.sh.on_read(); sh.on_write(); v=o.v; return *this; }
+};
 template<unsigned N> struct Impl: CacheIface{
   squids_shared::detail::cache<Val,N> c;
   bool insert(int v){ return c.insert(Val(v)); }
